@@ -44,8 +44,29 @@ def run(chk):
     mif, ff = repo.func("freeze")
     model = positional_params(ff)[0]
     src = U(ff)
+    from ..core import loop_body_paths, strip_identity
     loops = [x for x in ff.body if isinstance(x, ast.For)]
-    ok = len(loops) == 1 and U(loops[0].iter) == f"{model}.named_modules()" and len(loops[0].body) == 1 and isinstance(loops[0].body[0], ast.If) and U(loops[0].body[0].test) in ("isinstance(m, QModuleMixin)", "isinstance(m, (QModuleMixin,))") and [U(s) for s in loops[0].body[0].body] == ["m.freeze()"] and not loops[0].body[0].orelse
+    ok = len(loops) == 1 and U(strip_identity(loops[0].iter)) in (f"{model}.named_modules()", f"{model}.modules()")
+    if ok:
+        tgt = loops[0].target
+        mvar = U(tgt.elts[-1]) if isinstance(tgt, ast.Tuple) else U(tgt)
+        n_yes = 0
+        for bp in loop_body_paths(ff, loops[0]):
+            fb = path_facts(bp)
+            is_q = None
+            for k_, v_ in fb.items():
+                if k_.startswith("isinstance(") and "QModuleMixin" in k_ and k_.count(",") <= 2:
+                    is_q = v_
+            calls = [U(ef[1]) for ef in bp.effects if ef[0] == "expr"]
+            other = [ef for ef in bp.effects if ef[0] in ("store", "substore", "augstore", "del")]
+            if is_q is True:
+                n_yes += 1
+                ok = ok and len(calls) == 1 and calls[0].endswith(".freeze()") and not other
+                extra_conds = [c for c in bp.cond_texts() if "QModuleMixin" not in c]
+                ok = ok and not extra_conds
+            else:
+                ok = ok and not calls and not other
+        ok = ok and n_yes >= 1
     chk.require("C09.R1", f"{mif.rel}:{ff.lineno}", ok, "freeze(model) calls m.freeze() on every QModuleMixin of model.named_modules() and does nothing else", "freeze", "module-level walk", "a nested quantized module is left unfrozen")
     # qweight
     qw = ci.own("qweight")
